@@ -70,32 +70,41 @@ def collision_scripts(rng, n):
 
 def reload_scripts(rng, n):
     """Directed scripts around a SIGUSR1 that removes a service which still owes something: an answer, or the continuation of a
-    MORE dialogue.  Returns [(Config, [events])]."""
+    MORE dialogue.  The password comes first (the login-type service chal.svc is asked at once), the registration data afterwards
+    (the dronecheck service keep.svc is asked when it is complete).  Returns [(Config, [events])]."""
     out = []
-    for _ in range(n):
-        lp = rng.choice(["login", "login-ipr", "combined"])
-        svcs = [("chal.svc", lp), ("keep.svc", rng.choice(["login", "dronecheck"]))]
-        after = [svcs[1]] + ([("new.svc", "login")] if rng.random() < 0.4 else [])
+    for k_ in range(n):
+        lp = rng.choice(["login", "login", "login-ipr"])
+        svcs = [("chal.svc", lp), ("keep.svc", "dronecheck")]
+        after = [svcs[1]]
         cfg = proto.Config(svcs, timeout=rng.choice([None, 3600]))
-        kind = rng.choice(["more-then-removed", "more-then-removed", "owed-answer", "two-waiters", "leaver-then-removed", "leaver-then-removed"])
-        cids = [5, 9] if kind in ("two-waiters", "leaver-then-removed") else [5]
+        kind = ["more-then-removed", "leaver-then-removed", "more-then-removed", "owed-answer", "two-waiters", "leaver-then-removed", "retry-then-removed"][k_ % 7]
+        cids = [5, 9] if kind in ("two-waiters", "leaver-then-removed", "retry-then-removed") else [5]
         ev = []
         ser = {}
+        data = {}
         for k, cid in enumerate(cids):
             ser[cid] = k + 1
-            ev += [{"t": "announce", "id": cid, "ip": "192.0.2.%d" % cid, "port": 1000 + cid}, {"t": "host", "id": cid, "name": "h%d.example" % cid},
-                   {"t": "ident", "id": cid, "name": "id%d" % cid}, {"t": "nick", "id": cid, "name": "n%d" % cid},
-                   {"t": "userinfo", "id": cid, "user": "u%d" % cid, "real": "R"}, {"t": "password", "id": cid, "text": "%s acct%d pw" % (rng.choice(["+x", "+!", "+"]), cid)}]
+            ev += [{"t": "announce", "id": cid, "ip": "192.0.2.%d" % cid, "port": 1000 + cid}]
+            first = [{"t": "host", "id": cid, "name": "h%d.example" % cid}, {"t": "ident", "id": cid, "name": "id%d" % cid}]   # what login-ipr needs
+            rest = [{"t": "nick", "id": cid, "name": "n%d" % cid}, {"t": "userinfo", "id": cid, "user": "u%d" % cid, "real": "R"}]
+            ev += first + [{"t": "password", "id": cid, "text": "%s acct%d pw" % (rng.choice(["+x", "+x", "+", "+!"]), cid)}]
+            data[cid] = rest
         tag = lambda cid: "%x_%x" % (cid, ser[cid])
+        finish = lambda cid: data[cid] + [{"t": "reply", "svc": "keep.svc", "tag": tag(cid), "text": "OK"}, {"t": "hurry", "id": cid}]
+        reload_ev = {"t": "reload", "services": [list(x) for x in after]}
         if kind == "more-then-removed":
-            ev += [{"t": "reply", "svc": "chal.svc", "tag": tag(5), "text": "MORE prove it"}]
-            if rng.random() < 0.5:
-                ev += [{"t": "reply", "svc": "keep.svc", "tag": tag(5), "text": "OK"}]
-            ev += [{"t": "reload", "services": [list(x) for x in after]}, {"t": "password", "id": 5, "text": "response1"}]
-            if rng.random() < 0.5:
+            ev += [{"t": "reply", "svc": "chal.svc", "tag": tag(5), "text": "MORE prove it"}, reload_ev, {"t": "password", "id": 5, "text": "response1"}]
+            if rng.random() < 0.4:
                 ev += [{"t": "password", "id": 5, "text": "-! acct5 pw2"}]
-            ev += [{"t": "reply", "svc": n_, "tag": tag(5), "text": "OK acct5" if p_ != "dronecheck" else "OK"} for n_, p_ in after]
-            ev += [{"t": "hurry", "id": 5}]
+            ev += finish(5)
+        elif kind == "retry-then-removed":
+            # one client is told AGAIN and retries (asked a second time), another waits on the same service; the reload removes the
+            # service while both wait; the retrying client is answered first
+            a_, b_ = (5, 9) if rng.random() < 0.5 else (9, 5)
+            ev += [{"t": "reply", "svc": "chal.svc", "tag": tag(a_), "text": "AGAIN try again"}, {"t": "password", "id": a_, "text": "+x acct%d pw2" % a_}, reload_ev,
+                   {"t": "reply", "svc": "chal.svc", "tag": tag(a_), "text": "OK acct%d" % a_}] + finish(a_) + \
+                  [{"t": "reply", "svc": "chal.svc", "tag": tag(b_), "text": rng.choice(["OK acct%d" % b_, "NO refused %d" % b_])}] + finish(b_)
         elif kind == "leaver-then-removed":
             # both clients were asked; the service answers one of them, who then leaves (withdrawn, registered, or refused) - the other
             # is still owed its answer when the reload removes the service, and gets it afterwards
@@ -105,23 +114,19 @@ def reload_scripts(rng, n):
                 ev += [{"t": "reply", "svc": "chal.svc", "tag": tag(a_), "text": "NO refused"}]
             elif how == "again-retry-then-ok":
                 ev += [{"t": "reply", "svc": "chal.svc", "tag": tag(a_), "text": "AGAIN retry"}, {"t": "password", "id": a_, "text": "+x acct%d pw2" % a_},
-                       {"t": "reply", "svc": "chal.svc", "tag": tag(a_), "text": "OK acct%d" % a_}, {"t": "reply", "svc": "keep.svc", "tag": tag(a_), "text": "OK"},
-                       {"t": "hurry", "id": a_}, {"t": "registered", "id": a_}]
+                       {"t": "reply", "svc": "chal.svc", "tag": tag(a_), "text": "OK acct%d" % a_}] + finish(a_) + [{"t": "registered", "id": a_}]
             else:
                 ev += [{"t": "reply", "svc": "chal.svc", "tag": tag(a_), "text": "OK acct%d" % a_},
                        {"t": "disconnect" if how == "ok-then-disconnect" else "registered", "id": a_}]
-            ev += [{"t": "reload", "services": [list(x) for x in after]},
-                   {"t": "reply", "svc": "chal.svc", "tag": tag(b_), "text": rng.choice(["OK acct%d" % b_, "OK", "NO refused %d" % b_])},
-                   {"t": "reply", "svc": "keep.svc", "tag": tag(b_), "text": "OK"}, {"t": "hurry", "id": b_}]
+            ev += [reload_ev, {"t": "reply", "svc": "chal.svc", "tag": tag(b_), "text": rng.choice(["OK acct%d" % b_, "OK", "NO refused %d" % b_])}] + finish(b_)
         else:
-            ev += [{"t": "reload", "services": [list(x) for x in after]}]
+            ev += [reload_ev]
             order = list(cids)
             rng.shuffle(order)
             for cid in order:
                 ev += [{"t": "reply", "svc": "chal.svc", "tag": tag(cid), "text": rng.choice(["OK acct%d" % cid, "OK", "NO refused %d" % cid, "AGAIN retry"])}]
-                ev += [{"t": "reply", "svc": "keep.svc", "tag": tag(cid), "text": "OK"}]
             for cid in cids:
-                ev += [{"t": "hurry", "id": cid}]
+                ev += finish(cid)
         ev += [{"t": "stats"}]
         out.append((cfg, ev))
     return out
